@@ -672,6 +672,11 @@ class Lowerer:
             return "(.ite %s\n  %s\n  %s)" % (c, t, el)
         if kind == "block":
             return self.block(e, env, k)
+        if kind == "method" and e[2] == "clone" and not e[3] and getattr(self, "value_closure", False) and e[1][0] == "path" \
+                and env.get(e[1][1], ("",))[0] == "var" and env[e[1][1]][2] == "slot":
+            nv = self.nvars
+            self.nvars += 1
+            return "(.cloneOf %s\n  %s)" % (self.X(e[1], env), k("(.var %d)" % nv, env))
         if kind == "call" and e[1][0] == "path" and e[1][1] in env and env[e[1][1]][0] == "closureF":
             if getattr(self, "value_closure", False):
                 # `f(value)` as the closure's result: the caller's closure consumes the element and returns a value
@@ -687,6 +692,9 @@ class Lowerer:
             return self.call_f(e, env, lambda env2: k(".unit", env2))
         if kind == "method" and e[2] in ("fold", "rfold") and len(e[3]) == 2 and e[3][1][0] == "closure":
             return self.fold(e, env, lambda env2: k(".unit", env2), bind=False)
+        if kind == "method" and e[2] == "map" and len(e[3]) == 1 and e[3][0] == ("path", "Clone::clone") \
+                and e[1][0] == "path" and env.get(e[1][1], ("",))[0] == "self" and getattr(self, "self_recv", None) == "ref":
+            return self.default_map_on_ref(env, k)
         if kind == "method" and e[1][0] == "path" and e[1][1] in env and env[e[1][1]][0] == "self":
             try:
                 return k(self.X(e, env), env)
@@ -717,6 +725,35 @@ class Lowerer:
         if kind == "call" and e[1][0] == "path" and e[1][1].split("::")[-1] in ("forget", "drop_in_place", "write", "dealloc", "handle_alloc_error"):
             return self.effect(e, env, lambda env2: k(".unit", env2))
         return k(self.X(e, env), env)
+
+    def default_map_on_ref(self, env, k):
+        """`self.map(Clone::clone)` with `self: &GenericArray<T, N>`: method resolution picks the *trait default*
+        `FunctionalSequence::map` at `Self = &GenericArray` (the forwarding impl for `&'a S` must be empty), whose
+        `self.into_iter()` is `IntoIterator for &'a GenericArray`, i.e. `self.as_slice().iter()`"""
+        fwd = [key for key in self.all_impls if key.startswith("functional.rs/") and re.search(r"FunctionalSequence<T>for&'aS", key)]
+        if not fwd or any(self.impl_fns.get(key) for key in fwd):
+            raise Unparsed("`FunctionalSequence for &'a S` is not the empty forwarding impl")
+        own = [key for key in self.table if key[0].startswith("lib.rs/") and "FunctionalSequence<T>forGenericArray<T,N>" in key[0]]
+        if not own:
+            raise Unparsed("no by-value FunctionalSequence impl")
+        dm = [key for key in self.table if key[0].startswith("functional.rs/") and "traitFunctionalSequence<T>" in key[0] and key[1] == "map"]
+        if len(dm) != 1:
+            raise Unparsed("trait default FunctionalSequence::map not found")
+        hdr, body = self.table[dm[0]]
+        ii = [key for key in self.table if key[0].startswith("lib.rs/") and re.search(r"IntoIteratorfor&'aGenericArray<T,N>", key[0]) and key[1] == "into_iter"]
+        if len(ii) != 1:
+            raise Unparsed("IntoIterator for &GenericArray not found")
+        ib = self.table[ii[0]][1]
+        if ib[1] or ib[2] != ("method", ("method", ("path", "self"), "as_slice", []), "iter", []):
+            raise Unparsed("`(&GenericArray).into_iter()` is not `self.as_slice().iter()`")
+        # the default body must be `FromIterator::from_iter(self.into_iter().map(f))`
+        want = ("call", ("path", "FromIterator::from_iter"),
+                [("method", ("method", ("path", "self"), "into_iter", []), "map", [("path", "f")])])
+        if body[1] or body[2] != want:
+            raise Unparsed("trait default `map` is not `FromIterator::from_iter(self.into_iter().map(f))`")
+        clo = ("closure", [("pbind", "__x")], ("method", ("path", "__x"), "clone", []))
+        cenv = {"it": ("mapiter", ".self", clo, dict(env), self.nvars)}
+        return self.inline_static("from_iter", [("path", "it")], cenv, k)
 
     def slots_obj(self, e, env):
         """object whose array a `slice::Iter` expression walks: a `slotsiter` name, or `x.iter()` on a consumer /
@@ -1058,6 +1095,7 @@ def lower_fn(table, key):
     L = Lowerer(table, key[0])
     # element type parameter of the receiver: `… for GenericArray<T, N>`
     L.tparam_obj = {}
+    L.all_impls, L.impl_fns = IMPL_INDEX
     mm = re.search(r"for(?:Box<)?GenericArray<(\w+),", key[0])
     if mm:
         L.tparam_obj[mm.group(1)] = ".self"
@@ -1083,6 +1121,7 @@ def lower_fn(table, key):
                 L.tparam_obj[mm.group(1)] = ".other"
             else:
                 env[p[0]] = ("closureF",) if p[2] in ("F",) else (("ext",) if "Iterator" in p[2] else ("ignored",))
+    L.self_recv = recv
     text = L.block(body, env, lambda x, env2: "(.done %s)" % x)
     if recv == "owned" and "GAVisitor" in key[0]:
         # `self` is the visitor: a struct whose fields are all `PhantomData` has nothing to drop
@@ -1126,20 +1165,26 @@ TARGETS = [
     ("lib.rs", ("FunctionalSequence<T>forGenericArray<T,N>",), "fold", "gaFold"),
     ("lib.rs", ("FunctionalSequence<T>forGenericArray<T,N>",), "map", "gaMap"),
     ("lib.rs", ("GenericSequence<T>forGenericArray<T,N>",), "inverted_zip", "gaIzip"),
+    ("impls.rs", ("CloneforGenericArray<T,N>",), "clone", "gaClone"),
     ("impl_serde.rs", ("Visitor<'de>forGAVisitor<T,N>",), "visit_seq", "visitSeq"),
     ("impl_alloc.rs", ("GenericSequence<T>forBox<GenericArray<T,N>>",), "generate", "boxedGenerate"),
     ("impl_alloc.rs", ("DropforDeallocOnDrop",), "drop", "deallocGuardDrop"),
 ]
 
 
+IMPL_INDEX = ([], {})
+
+
 def build_table():
     """(file/impl-header, fn name) -> (header tokens, parsed body) for every fn in the two files"""
     table = {}
     errors = {}
-    for fname in ("iter.rs", "internal.rs", "lib.rs", "impl_alloc.rs", "impl_serde.rs"):
+    for fname in ("iter.rs", "internal.rs", "lib.rs", "impl_alloc.rs", "impl_serde.rs", "impls.rs", "functional.rs"):
         toks = rsparse.tokenize(open(os.path.join(REPO, "src", fname)).read())
-        for imp in rsparse.items(toks, "impl"):
+        for imp in list(rsparse.items(toks, "impl")) + list(rsparse.items(toks, "trait")):
             h = imp.header_text()
+            IMPL_INDEX[0].append(fname + "/" + h)
+            IMPL_INDEX[1].setdefault(fname + "/" + h, [])
             k = imp.lo
             while k < imp.hi:
                 if toks[k].k == "id" and toks[k].s == "fn" and toks[k + 1].k == "id":
@@ -1150,6 +1195,7 @@ def build_table():
                         k += 1
                         continue
                     key = (fname + "/" + h, name)
+                    IMPL_INDEX[1][fname + "/" + h].append(name)
                     try:
                         table[key] = (it.header, rsbody.parse_body(it.body))
                     except Unparsed as ex:
